@@ -220,15 +220,16 @@ private theorem kindOf_of_pathFor (ps : List ReqPath) (c : Client) (k : Kind) (p
      simp only [kindOf, hp.1, hp.2]
      decide)
 
-/-- For every configuration, client and call history: every request the history emits through a table of compliant
-    paths is good. -/
+/-- For every configuration, client and call history (failed handshakes included): every request the history emits
+    through a table of compliant paths is good. -/
 theorem C19_every_request_good (ps : List ReqPath) (hall : ∀ p ∈ ps, compliant p = true)
-    (cfg : Cfg) (c : Client) (hist : List Op) (st : St) :
-    ∀ o ∈ trace cfg ps c st hist, ∀ k obs, o = some (k, obs) → good cfg k obs = true := by
+    (cfg : Cfg) (c : Client) (hist : List (Op × Nat)) (st : St) :
+    ∀ o ∈ trace cfg ps c st hist, ∀ k obs seen, o = some (k, obs, seen) → good cfg k obs = true := by
   induction hist generalizing st with
   | nil => simp [trace]
-  | cons op rest ih =>
-    intro o ho k obs heq
+  | cons opv rest ih =>
+    obtain ⟨op, v⟩ := opv
+    intro o ho k obs seen heq
     simp only [trace, List.mem_append, List.mem_map] at ho
     rcases ho with ⟨⟨k', issued⟩, _, hmap⟩ | hrest
     · subst heq
@@ -236,16 +237,41 @@ theorem C19_every_request_good (ps : List ReqPath) (hall : ∀ p ∈ ps, complia
       | none => simp [hp] at hmap
       | some p =>
         simp only [hp, Option.map_some, Option.some.injEq, Prod.mk.injEq] at hmap
-        obtain ⟨hk1, hk2⟩ := hmap
+        obtain ⟨hk1, hk2, _⟩ := hmap
         subst hk1; subst hk2
         have ⟨hkind, hmem⟩ := kindOf_of_pathFor ps c k' p hp
         exact good_of p k' hkind (hall p hmem) cfg issued
-    · exact ih _ o hrest k obs heq
+    · exact ih _ o hrest k obs seen heq
+
+/-- Which context values the before-request function sees: for a request built by a compliant path, emitted by an
+    operation called with value `v` — that value; for the listening stream and for answers to server-issued
+    requests — the handshake value of the state the operation leaves (see the next theorem for what that is). -/
+theorem C19_seen_value (p : ReqPath) (k : Kind) (hk : kindOf p = some k) (hc : compliant p = true)
+    (cfg : Cfg) (hb : cfg.before = true) (issued : Bool) (st' : St) (v : Nat) :
+    seenOf st' v k (requestOf cfg issued k p) = if silent k then st'.hsVal else some v := by
+  have h := (C19_before_once p k hk hc cfg issued hb).2
+  unfold seenOf
+  rw [h]
+  cases k <;> simp [background, silent]
+
+/-- The handshake value changes only when an operation completes a handshake (turns an un-initialized client into an
+    initialized one), and then becomes that operation's value: a failed `Initialize` — whether its first request was
+    answered with a failure or refused by the before-request function — never leaves its context behind. -/
+theorem C19_handshake_value (cfg : Cfg) (ps : List ReqPath) (c : Client) (st : St) (v : Nat) (op : Op) :
+    (emits cfg ps c st v op).2.hsVal = st.hsVal ∨
+      ((emits cfg ps c st v op).2.hsVal = some v ∧ st.initialized = false ∧ (emits cfg ps c st v op).2.initialized = true) := by
+  cases op <;> simp only [emits] <;> (try split) <;> (try split) <;> (try cases c) <;> simp_all [initOk]
+
+/-- A client never becomes un-initialized again, so the handshake value is set at most once per history. -/
+theorem C19_initialized_stays (cfg : Cfg) (ps : List ReqPath) (c : Client) (st : St) (v : Nat) (op : Op)
+    (h : st.initialized = true) :
+    (emits cfg ps c st v op).2.initialized = true ∧ (emits cfg ps c st v op).2.hsVal = st.hsVal := by
+  cases op <;> simp only [emits, h] <;> (try split) <;> (try split) <;> simp_all
 
 /-- The property for the code as it is: for every configuration, client and call history, every request the
     history emits (through the regenerated request builders) is good. -/
-theorem C19_every_request_good_generated (cfg : Cfg) (c : Client) (hist : List Op) (st : St) :
-    ∀ o ∈ trace cfg Mcp.Gen.ReqPaths.paths c st hist, ∀ k obs, o = some (k, obs) → good cfg k obs = true :=
+theorem C19_every_request_good_generated (cfg : Cfg) (c : Client) (hist : List (Op × Nat)) (st : St) :
+    ∀ o ∈ trace cfg Mcp.Gen.ReqPaths.paths c st hist, ∀ k obs seen, o = some (k, obs, seen) → good cfg k obs = true :=
   C19_every_request_good _ C19_all_paths_compliant cfg c hist st
 
 /-- … and a failing before-request function stops every kind of request of both clients. -/
@@ -265,17 +291,34 @@ example : ∃ p ∈ Mcp.Gen.ReqPaths.paths, p.fn = t!"send" ∧ kindOf p = some 
 example :
     let cfg : Cfg := ⟨true, true, true, true, true⟩
     let obs := [Client.streamable, Client.sse].flatMap (fun c =>
-        trace cfg Mcp.Gen.ReqPaths.paths c {} [.initialize, .tools, .toolsRetry, .notify, .roots, .rootsUnknown, .terminate])
+        trace cfg Mcp.Gen.ReqPaths.paths c {}
+          [(.initialize, 1), (.tools, 2), (.toolsRetry, 3), (.notify, 4), (.roots, 5), (.rootsUnknown, 6), (.terminate, 7)])
     obs.length = 19 ∧ obs.all (fun o => match o with
-        | some (k, obs) => good cfg k obs && obs.before == 1 && obs.via == .custom
+        | some (k, obs, _) => good cfg k obs && obs.before == 1 && obs.via == .custom
         | none => false) = true := by decide
+
+/-- Failed handshakes followed by a successful one with another context value: the legacy connect sees the value of
+    the attempt that makes it (1, then 3); the request, the notification and the later answer to a server request see
+    the successful handshake's value 3 / their own; nothing of the failed attempts 1 and 2 survives. Same for the
+    Streamable listening stream (value 2) after a refused first attempt. -/
+example :
+    let cfg : Cfg := ⟨false, true, false, false, false⟩
+    (trace cfg Mcp.Gen.ReqPaths.paths .sse {} [(.initFailSent, 1), (.initFailRefused, 2), (.initialize, 3), (.roots, 4), (.tools, 5)]).map
+        (fun o => o.map (fun x => (x.1, x.2.2))) =
+      [some (.connect, some 1), some (.connect, some 3), some (.request, some 3), some (.notification, some 3),
+       some (.answer, some 3), some (.request, some 5)] ∧
+    (trace cfg Mcp.Gen.ReqPaths.paths .streamable {} [(.initFailRefused, 1), (.initialize, 2), (.roots, 3), (.terminate, 4)]).map
+        (fun o => o.map (fun x => (x.1, x.2.2))) =
+      [some (.request, some 2), some (.notification, some 2), some (.stream, some 2), some (.answer, some 2),
+       some (.delete, some 4)] := by decide
 
 /-! ## the bad region (pre-fix table) at the level of observations -/
 
 /-- D31: with a custom path and a before-request function configured, the Streamable client's answer to a
     server-issued `roots/list` missed the path and never reached the function; the DELETE bypassed the custom handler. -/
 theorem C19_prefix_answer_delete_counterexample :
-    trace ⟨true, true, true, true, true⟩ preFixPaths .streamable ⟨true, true⟩ [.roots, .terminate] =
+    (trace ⟨true, true, true, true, true⟩ preFixPaths .streamable ⟨true, true, false, some 1⟩ [(.roots, 2), (.terminate, 3)]).map
+        (fun o => o.map (fun x => (x.1, x.2.1))) =
       [ some (.answer, ⟨t!"sendResponseToServer", .post, false, true, true, .custom, true, 0, .unseen⟩),
         some (.delete, ⟨t!"terminateSession", .delete, true, true, true, .bare, true, 0, .unseen⟩) ] := by
   decide
